@@ -94,7 +94,7 @@ def patches():
     def mx(a, b): return E(f"max {E.lift(a)._p()} {E.lift(b)._p()}", False)
     return [(math, "sqrt", fn("sqrt")), (math, "log", fn("log")), (np, "sqrt", fn("sqrt")), (np, "log", fn("log")),
             (np, "ceil", fn("ceil")), (np, "array", arr), (np, "sum", sm), (np, "average", avg), (np, "var", var),
-            (np, "maximum", mx)]
+            (np, "maximum", mx), (np, "power", lambda a, b: E.lift(a) ** b)]
 
 
 def make_node(cls):
@@ -439,6 +439,34 @@ def traced():
         nd.update_reward(E("r"))
         return ("varR minvar", nd.variance, "Published.varFloor max varR minvar")
     run("vhct_varfloor", vhct_varfloor)
+
+    class StubPart:
+        """a partition stand-in for tracing constructors: deep enough that no constructor loop touches it"""
+        def __init__(self, domain=None, node=None): pass
+        def get_depth(self): return 10 ** 6
+        def get_root(self): return None
+        def get_node_list(self): return [[None]]
+        def deepen(self): pass
+
+    def c1_of(modname, clsname):
+        def f():
+            import importlib
+            cls = getattr(importlib.import_module(modname), clsname)
+            a = cls.__new__(cls)
+            try:
+                a.__init__(nu=E("nu"), rho=E("rho"), domain=[[0, 1]], partition=StubPart)
+            except AttributeError:
+                pass                      # the root expansion on the stand-in partition; c1 is set before it
+            return ("nu rho", a.c1, "Published.hctC1 rpow nu rho")
+        return f
+    run("hct_c1", c1_of("PyXAB.algos.HCT", "HCT"))
+    run("vhct_c1", c1_of("PyXAB.algos.VHCT", "VHCT"))
+
+    def vroom_delta():
+        import PyXAB.algos.VROOM as VM
+        a = VM.VROOM(n=4, h_max=3, b=E("b"), f_max=E("fmax"), domain=[[0, 1]], partition=StubPart)
+        return ("b fmax", a.delta, "Published.vroomDelta sqrt b fmax (4 : α)")
+    run("vroom_delta", vroom_delta)
     return out, problems
 
 
@@ -459,9 +487,11 @@ variable {α : Type} [Field α] (sqrt log ceil floor : α → α) (rpow : α →
 
 SUBSETS = {"C05": ["hoo_u", "hct_u", "vhct_u"], "C06": ["hct_tau", "vhct_tau", "hoo_depth"], "C08": ["sto_b", "doo_b"],
            "C10": ["poo_score", "poo_rho", "poo_cond"], "C11": ["zoom_index", "zoom_radius", "zoom_threshold", "zoom_mean"],
-           "C13": ["vroom_lcb", "vroom_prob", "vroom_tilde"], "C09": ["gpo_N", "gpo_half"], "C04": ["vhct_varfloor"]}
+           "C13": ["vroom_lcb", "vroom_prob", "vroom_tilde", "vroom_delta"], "C09": ["gpo_N", "gpo_half"], "C04": ["vhct_varfloor"]}
 SUBSETS["C05"] += ["hct_dt_one", "vhct_dt_one"]
 SUBSETS["C06"] += ["hct_dt_half", "vhct_dt_half"]
+SUBSETS["C05"] += ["hct_c1", "vhct_c1"]
+SUBSETS["C06"] += ["hct_c1", "vhct_c1"]
 
 
 def generate(prop=None):
@@ -491,7 +521,8 @@ theorem {name} ({vs} : α) :
   (simp only [Published.hooU, Published.hctU, Published.vhctU, Published.hctTau, Published.vhctTau, Published.stoB, Published.dooB,
     Published.hooDepth, Published.zoomIndex, Published.vroomLcb, Published.runningMean, Published.hctDt, Published.gpoN,
     Published.gpoHalf, Published.gridRho, Published.pooBound, Published.zoomRadius, Published.zoomThreshold,
-    Published.vroomProb, Published.vroomTilde, Published.varFloor])
+    Published.vroomProb, Published.vroomTilde, Published.varFloor,
+    Published.hctC1, Published.vroomDelta])
     <;> (first | rfl | ring | (ring_nf; done) | (congr 1 <;> ring_nf; done) | (congr 2 <;> ring_nf; done))
 """)
         names.append(name)
